@@ -24,7 +24,9 @@ EXPLANATION = (
     "elements with the fields they may write, and no nested function changes what it captured from its creating call); (e) every True exit of Write.run's selection predicate has established the condition under "
     "which the body calls data.write, or that the data is a string.  (g) The selection verdict of MapBins / IterateBins / HistToGraph is taken on the example bin: for a histogram "
     "get_example_bin descends exactly struct.dim levels (get_bin_on_index over struct.bins), never 'while it is a list' -- a bin whose "
-    "content is itself a list is the bin, not something to descend into.  Does not decide which values are selected.")
+    "content is itself a list is the bin, not something to descend into.  (h) The predicates that send a value to the PASS path "
+    "(is_tex_file, is_pdf, is_writable, _is_csv, _select_template_or_default) never subscript the value's context: they are "
+    "total and effect-free on every context a dictionary subclass can be.  Does not decide which values are selected.")
 RULES = {
     "C10-a": "identity: a passed value is the loop variable itself, never rebound, never a rebuilt tuple",
     "C10-b": "PURE: no mutation through the value or its aliases and no file-system/subprocess effect on a PASS path",
@@ -34,6 +36,9 @@ RULES = {
              "(a value selected as writable is either such an object or a string)",
     "C10-g": "DEPTH BY DIMENSION: the example bin of a histogram is found by its dimension (get_bin_on_index([0]*dim, bins)), "
              "not by descending while the content is a list",
+    "C10-h": "TOTAL SELECTION: the selection predicates of the output elements (is_*/_is_*/_select*) read the context through "
+             "get_recursively / in / .get -- never by subscripting it, which raises for (or, with __missing__, changes) the very "
+             "values that are to be passed on",
     "C10-f": "NO HIDDEN STATE: the data-path methods (run, __call__, fill_into and the adapters' drivers) of every class in lena "
              "write nothing through self, the named stateful elements excepted: what an element yields for a value cannot depend on "
              "the values, or the runs, that came before",
@@ -592,7 +597,42 @@ def check_example_bin(ctx):
     ctx.instances_floor("C10-g", n, 1, "paths of get_example_bin for a histogram")
 
 
+PRED_MODULES = ("lena.output.to_csv", "lena.output.write", "lena.output.render_latex", "lena.output.latex_to_pdf",
+                "lena.output.pdf_to_png", "lena.structures.elements", "lena.structures.split_into_bins", "lena.flow.elements",
+                "lena.flow.group_plots")
+
+
+def check_total_selection(ctx):
+    """The predicate runs for *every* value, selected or not.  context["output"]["filetype"] (a) raises TypeError out of the element
+    when context["output"] is not a dictionary -- the value and everything after it are lost -- and (b) inserts a key into a
+    context with __missing__ (defaultdict), altering a value that is then passed on as 'unchanged'."""
+    import re
+    res = ctx.res
+    n = 0
+    for mod, fn in ctx.tree.functions():
+        if mod.name not in PRED_MODULES or not re.match(r"_?(is|select)_?", fn.name):
+            continue
+        n += 1
+        # names holding the value's context (or the value): parameters and what get_context/get_data_context return
+        ctxn = set(A.func_params(fn)) - {"self"}
+        for st in A.walk_local(fn):
+            if isinstance(st, ast.Assign) and isinstance(st.value, ast.Call) and A.call_name(st.value) in ("get_context", "get_data_context", "get_data"):
+                for tg in st.targets:
+                    ctxn.update(A.target_names(tg))
+        bad = [x for x in A.walk_local(fn) if isinstance(x, ast.Subscript) and isinstance(x.ctx, ast.Load) and A.root_name(x) in ctxn
+               and not isinstance(x.slice, ast.Slice)]
+        # positional unpacking of the value itself (value[0], value[1]) is not a context look-up
+        bad = [x for x in bad if not (isinstance(x.value, ast.Name) and A.int_const(x.slice) is not None)]
+        ctx.check("C10-h", not bad, bad[0] if bad else fn, "the selection predicate %s subscripts the value's context (`%s`): for a value it does "
+                  "not select this can raise (a KeyError/TypeError leaves the element: the value and all that follow are lost) or, for a "
+                  "dictionary subclass with __missing__, insert the key into a context that is then passed on as unchanged; the other "
+                  "predicates use get_recursively(context, key, default)" % (A.qualname(fn), A.short(bad[0], 50) if bad else ""),
+                  detail="%s reads the context without subscripting it" % A.qualname(fn), construct="predicate-subscript:%s" % fn.name)
+    ctx.instances_floor("C10-h", n, 5, "selection predicates of the output elements")
+
+
 def check(ctx):
+    check_total_selection(ctx)
     check_example_bin(ctx)
     check_no_hidden_state(ctx)
     check_write_agree(ctx)
@@ -603,6 +643,7 @@ def check(ctx):
 
 
 VARIANTS = [
+    M("is-csv-by-subscript", "lena/output/render_latex.py", "    return _get_recursively(\n        context, \"output.filetype\", None\n    ) == \"csv\"", "    try:\n        return context[\"output\"][\"filetype\"] == \"csv\"\n    except KeyError:\n        return False", ["C10-h"]),
     M("latex-last-value-decides-wait", "lena/output/latex_to_pdf.py", "        # this data mustn't be reused\n        del val\n",
       "        if val is None:\n            return\n\n        # this data mustn't be reused\n        del val\n", ["C10-d"]),
     M("example-bin-by-type", "lena/structures/hist_functions.py", "        return lena.structures.get_bin_on_index([0] * struct.dim, struct.bins)\n    else:\n        bins = struct\n        while isinstance(bins, list):\n            bins = bins[0]\n        return bins",
